@@ -8,6 +8,8 @@ Extracted from the AST of glom/*.py (current source):
   * every write, inside any function of core / matching / mutation / grouping / reduction /
     streaming, to module-level or class-level state (`global x`, `cls.x = …`, `Class.x[...] = …`,
     a mutating method on such an object, also through a local alias);
+  * every parameter default that is a mutable object (`x={}`, `x=[]`, `x=dict()` …): such an
+    object is created once and shared by all calls;
   * the dict literal `glom()` passes to `_DEFAULT_SCOPE.new_child` (key → how the value is
     built) and the one `_glom` passes to `scope.new_child`;
   * which attributes of `self` the registry methods on the evaluation path write.
@@ -141,6 +143,50 @@ def shared_writes(tree):
             seen.add(x)
             res.append(x)
     return res
+
+
+def mutable_defaults(tree):
+    """(function, parameter=default) for every parameter default that is a mutable object created
+    once at definition time and then shared by all calls"""
+    out = []
+
+    def is_mutable(d):
+        if isinstance(d, (ast.Dict, ast.List, ast.Set, ast.ListComp, ast.DictComp, ast.SetComp)):
+            return True
+        if isinstance(d, ast.Call) and isinstance(d.func, ast.Name) and d.func.id in (
+                'dict', 'list', 'set', 'OrderedDict', 'defaultdict', 'deque', 'bytearray', 'ChainMap'):
+            return True
+        return False
+
+    def walk(body, prefix):
+        for n in body:
+            if isinstance(n, (ast.FunctionDef, ast.AsyncFunctionDef)):
+                a = n.args
+                pos = a.posonlyargs + a.args
+                for arg, d in zip(pos[len(pos) - len(a.defaults):], a.defaults):
+                    if is_mutable(d):
+                        out.append((prefix + n.name, '%s=%s' % (arg.arg, ast.unparse(d))))
+                for arg, d in zip(a.kwonlyargs, a.kw_defaults):
+                    if d is not None and is_mutable(d):
+                        out.append((prefix + n.name, '%s=%s' % (arg.arg, ast.unparse(d))))
+                walk(n.body, prefix + n.name + '.')
+            elif isinstance(n, ast.ClassDef):
+                walk(n.body, prefix + n.name + '.')
+            elif isinstance(n, (ast.If, ast.Try, ast.With, ast.For, ast.While)):
+                for fld in ('body', 'orelse', 'finalbody'):
+                    walk(getattr(n, fld, []) or [], prefix)
+                for h in getattr(n, 'handlers', []) or []:
+                    walk(h.body, prefix)
+        for n in body:
+            for sub in ast.walk(n):
+                if isinstance(sub, ast.Lambda):
+                    a = sub.args
+                    pos = a.posonlyargs + a.args
+                    for arg, d in zip(pos[len(pos) - len(a.defaults):], a.defaults):
+                        if is_mutable(d) and (prefix + '<lambda>', '%s=%s' % (arg.arg, ast.unparse(d))) not in out:
+                            out.append((prefix + '<lambda>', '%s=%s' % (arg.arg, ast.unparse(d))))
+    walk(tree.body, '')
+    return out
 
 
 def value_kind(v):
@@ -282,6 +328,7 @@ def extract(ctx):
         P.add('TargetRegistry.get_handler not found')
     # ---- shared writes in all modules
     writes = []
+    mdefaults = []
     for m in MODULES:
         try:
             tree = core if m == 'core' else ctx['src_tree'](m + '.py')
@@ -290,6 +337,8 @@ def extract(ctx):
             continue
         for q, w in shared_writes(tree):
             writes.append((q if m == 'core' else m + ':' + q, w))
+        for q, w in mutable_defaults(tree):
+            mdefaults.append((q if m == 'core' else m + ':' + q, w))
     # ---- scope literals
     g = find_def(core, 'glom')
     root, glom_scope = new_child_literal(g) if g is not None else (None, None)
@@ -315,6 +364,7 @@ def extract(ctx):
         ('c20FromTextShape', 'List String', ft_shape),
         ('c20GetHandlerShape', 'List String', gh_shape),
         ('c20SharedWrites', 'List (String × String)', writes),
+        ('c20MutableDefaults', 'List (String × String)', mdefaults),
         ('c20GlomScope', 'List (String × String)', glom_scope),
         ('c20GlomScopeRoot', 'String', root or ''),
         ('c20ChildScope', 'List (String × String)', child_scope),
